@@ -106,8 +106,11 @@ CLAIMED = {
         "visits every reachable model state to depth 4 (thorough 5) and executes every enabled (state, operation) transition on the generated C API (the entry points Fortran calls) in a "
         "fresh process: construct, call, copy handle, explicit destructor, release through the capsule destructor, release again, result fetch and copy-and-free. After every step the "
         "library's registry of live objects, double-destruction and library-object-destruction events, operator new/delete and malloc/free balances and the capsule fields must equal the "
-        "model; all histories to depth 3 also run without state merging and everything runs again under AddressSanitizer + LeakSanitizer.",
-        "Operations through a handle whose object was released through an alias are caller errors and are not generated. gcc 12; the C API and the Fortran module are the driven seams.",
+        "model; all histories to depth 3 also run without state merging and everything runs again under AddressSanitizer + LeakSanitizer. The same model is driven through the "
+        "generated Fortran module (class handles, capsule finaliser via deallocate, type-bound delete; depth 3/4 plus unmerged depth 3) and through the CPython 3.12 extension "
+        "(reference drop, aliases, list-mode results; per-counter oracle). The library also has a +free_pattern result, empty and long std::string results, char**, std::string& inout, "
+        "+charlen out, vector and vector-of-string arguments with exact-size heap buffers.",
+        "Operations through a handle whose object was released through an alias are caller errors and are not generated. gcc 12 / gfortran 12 / CPython 3.12. Four Python release defects are known findings.",
         "DESIGN.md section 3 C06",
     ),
     "C05": (
@@ -133,7 +136,10 @@ CLAIMED = {
         "Every argument atom and result atom of the admitted grammar alone, every ordered pair over atom-class representatives (and, thorough, triples over eight colliding classes), "
         "with trailing defaults reached through the generic name, is wrapped by the real shroud for {c, c++} x {F_CFI off, on} x {debug}; the generated C and Fortran wrappers are compiled "
         "with an instrumented subject library and a generated Fortran driver performs every call over the product of the atoms' value alphabets (boundary integers/reals, blank-containing "
-        "and full-length strings, arrays of length 0/1/3). The library's RECV trace and the driver's observations must equal the reference model line by line (2.9k calls quick).",
+        "and full-length strings, arrays of length 0/1/3). The library's RECV trace and the driver's observations must equal the reference model line by line (15.7k calls quick). "
+        "Families that share one Fortran generic name - every overload set of size 2-3 over eight signatures, every instantiation list of a function template over four types, "
+        "fortran_generic lists - are called through the generic name with typed actual arguments and the tag the subject logs says which entry point ran. A caller that does not "
+        "compile against a module that does, or a function that cannot be generated/built for a reason property C05 does not already record, is a violation.",
         "Functions that do not generate or build are property C05's subject and are listed as uncovered here. Value alphabets are boundary sets, not all values.",
         "DESIGN.md section 3 C01",
     ),
